@@ -651,10 +651,12 @@ def build_reported(chk, prop, proofs_file, props_file):
         if rc != 0:
             chk.notes.append(f"[{prop}] composition with the enumeration loop skipped: proofs/EnumProofs.v (property C05) does not build")
             return
-        rc, out = _sh(["timeout", "1500", "make", "-j8", proofs_file + "o"], cwd=coq, timeout=1600)
-        if rc != 0:
-            chk.broken.append(("obligation", "coq-build:" + proofs_file, out[-2000:]))
-            return
+        proofs_files = [proofs_file] if isinstance(proofs_file, str) else list(proofs_file)
+        for pf in proofs_files:
+            rc, out = _sh(["timeout", "1500", "make", "-j8", pf + "o"], cwd=coq, timeout=1600)
+            if rc != 0:
+                chk.broken.append(("obligation", "coq-build:" + pf, out[-2000:]))
+                return
         rc, out = _sh(["timeout", "600", "coqc"] + COQ_FLAGS + [props_file], cwd=coq, timeout=700)
         open(os.path.join(coq, props_file[:-2] + ".out"), "w").write(out)
         if rc != 0:
@@ -665,7 +667,7 @@ def build_reported(chk, prop, proofs_file, props_file):
             if ax:
                 chk.broken.append(("obligation", f"assumptions:{thm}", "depends on: " + ", ".join(ax)))
         n = 0
-        for f in (proofs_file, props_file):
+        for f in proofs_files + [props_file]:
             nocom = strip_comments(open(os.path.join(coq, f)).read())
             for mm in FORBIDDEN.finditer(nocom):
                 chk.broken.append(("obligation", f"audit:{f}", f"forbidden token {mm.group(0)!r}"))
@@ -674,9 +676,9 @@ def build_reported(chk, prop, proofs_file, props_file):
             n += len(re.findall(r"\b(Qed|Defined)\s*\.", nocom))
         if chk.build_info is not None:
             chk.build_info.assumptions.update(ass)
-            chk.build_info.files += [proofs_file, props_file]
+            chk.build_info.files += proofs_files + [props_file]
         chk.obligations += n
-        if not any(k == "obligation" and (os.path.basename(proofs_file) in nm or os.path.basename(props_file) in nm) for k, nm, _ in chk.broken):
+        if not any(k == "obligation" and any(os.path.basename(f) in nm for f in proofs_files + [props_file]) for k, nm, _ in chk.broken):
             chk.discharged += n
         chk.notes.append(f"[{prop}] composition with the enumeration loop of C05 checked: {len(ass)} theorems in {props_file} "
                          "(premises: solver contract of C05)")
